@@ -97,9 +97,10 @@ SPEC = {
             "reduction / an inverse / a partial inverse (or, for refusals, a composite / prime-free range), distinct by hash(block description, seed salt)",
     "assumptions": [
         "documented preconditions respected: signed machine-integer operands are only passed in a type that can hold the characteristic; the fused "
-        "methods of Zp_field_operators / Multi_field_operators_with_small_characteristics are documented 'not overflow safe' and only receive "
-        "triples whose exact value fits 32 bits; Multi_field_operators_with_small_characteristics only gets ranges whose product is <= 65535 "
-        "(its documentation requires product^2 to fit an unsigned int); partial-inverse arguments Q are sub-products of the range (Q >= 1)",
+        "methods of Zp_field_operators / Multi_field_operators_with_small_characteristics are documented 'not overflow safe': UNREDUCED triples "
+        "are only judged when their exact value fits 32 bits, REDUCED triples are always judged (the property demands exactness on reduced "
+        "operands for every accepted characteristic / range whose product fits the element type); partial-inverse arguments Q are "
+        "sub-products of the range (Q >= 1)",
         "inverse of 0 in a single-prime field is not requested; (partial) inverses of the multi-field operator classes are requested for reduced operands only",
         "Field_Zp and pcoh::Multi_field receive reduced operands only (as the cohomology engine does), one init() per object",
         "a prime above Field_Zp's documented maximum 46337 may either be refused or handled exactly",
@@ -201,8 +202,8 @@ SPEC = {
                 "and prime squares, prime-free ranges, min > max) must throw; compile-time refusals are checked by negative compile probes. 8 threads using "
                 "their own elements of one type run under ThreadSanitizer. Held on what was observed (~4e8 evaluations quick, ~2e10 thorough), not a proof.",
         "note": "trusted: harness oracle (c10_common.h: __int128, trial division), GMP, libstdc++. Preconditions respected: signed integer types able to hold "
-                "the characteristic; fused methods documented 'not overflow safe' only get word-sized exact values; small multi-field operators only with "
-                "product <= 65535; Q a sub-product of the range; no inverse of 0 in a prime field; cohomology classes get reduced operands; only the default "
+                "the characteristic; fused methods documented 'not overflow safe': unreduced operands only with word-sized exact values, reduced operands always; "
+                "Q a sub-product of the range; no inverse of 0 in a prime field; cohomology classes get reduced operands; only the default "
                 "unsigned int element type is instantiated; primes >= 2^16 are not tried for the run-time Z_p classes (O(p^2) table construction).",
         "technique": "runtime monitoring: exhaustive small-field enumeration + boundary-directed/random operands against an exact-integer oracle, under "
                      "AddressSanitizer/UBSan/ThreadSanitizer; negative compile probes for static_assert refusals",
